@@ -10,8 +10,8 @@ set_option linter.unusedVariables false
 namespace CtyModel
 namespace Res
 variable {α β : Type} {P : β → Prop}
-theorem all_bind' (x : Res α) (f : α → Res β) : All P (x.bind f) ↔ All (fun a => All P (f a)) x := by
-  cases x <;> simp [All, Res.bind]
+theorem all_bind' (x : Res α) (f : α → Res β) : AllW P (x.bind f) ↔ AllW (fun a => AllW P (f a)) x := by
+  cases x <;> simp [AllW, Res.bind]
 end Res
 
 namespace Refine
@@ -42,17 +42,17 @@ theorem Keeps.refl (b : Builder) : Keeps b b := ⟨rfl, rfl, sameKind_refl _⟩
 theorem Keeps.trans {a b c : Builder} (h1 : Keeps a b) (h2 : Keeps b c) : Keeps a c :=
   ⟨h2.1.trans h1.1, h2.2.1.trans h1.2.1, sameKind_trans h1.2.2 h2.2.2⟩
 
-theorem keeps_stepNotNull (b : Builder) : Res.All (Keeps b) (stepNotNull b) := by
+theorem keeps_stepNotNull (b : Builder) : Res.AllW (Keeps b) (stepNotNull b) := by
   unfold stepNotNull
   res_all
   exact (Res.all_ok _).mpr ⟨rfl, rfl, sameKind_setNull _ _⟩
-theorem keeps_stepNull (b : Builder) : Res.All (Keeps b) (stepNull b) := by
+theorem keeps_stepNull (b : Builder) : Res.AllW (Keeps b) (stepNull b) := by
   unfold stepNull
   res_all
   exact (Res.all_ok _).mpr ⟨rfl, rfl, sameKind_setNull _ _⟩
 
 theorem keeps_lowerCore (b : Builder) (n lo hi m incl store) (hw : b.wip = .num n lo hi) :
-    Res.All (Keeps b) (lowerCore b n lo hi m incl store) := by
+    Res.AllW (Keeps b) (lowerCore b n lo hi m incl store) := by
   unfold lowerCore
   res_all
   all_goals try (dsimp only; res_all)
@@ -60,7 +60,7 @@ theorem keeps_lowerCore (b : Builder) (n lo hi m incl store) (hw : b.wip = .num 
     | exact (Res.all_ok _).mpr (Keeps.refl b)
     | exact (Res.all_ok _).mpr ⟨rfl, rfl, by rw [hw]; rfl⟩
 theorem keeps_upperCore (b : Builder) (n lo hi m incl store) (hw : b.wip = .num n lo hi) :
-    Res.All (Keeps b) (upperCore b n lo hi m incl store) := by
+    Res.AllW (Keeps b) (upperCore b n lo hi m incl store) := by
   unfold upperCore
   res_all
   all_goals try (dsimp only; res_all)
@@ -68,7 +68,7 @@ theorem keeps_upperCore (b : Builder) (n lo hi m incl store) (hw : b.wip = .num 
     | exact (Res.all_ok _).mpr (Keeps.refl b)
     | exact (Res.all_ok _).mpr ⟨rfl, rfl, by rw [hw]; rfl⟩
 
-theorem keeps_stepNumLower (b : Builder) (a incl) : Res.All (Keeps b) (stepNumLower b a incl) := by
+theorem keeps_stepNumLower (b : Builder) (a incl) : Res.AllW (Keeps b) (stepNumLower b a incl) := by
   unfold stepNumLower
   split
   · rename_i n lo hi hw
@@ -77,7 +77,7 @@ theorem keeps_stepNumLower (b : Builder) (a incl) : Res.All (Keeps b) (stepNumLo
     · simp
     all_goals exact keeps_lowerCore b _ _ _ _ _ _ hw
   · simp
-theorem keeps_stepNumUpper (b : Builder) (a incl) : Res.All (Keeps b) (stepNumUpper b a incl) := by
+theorem keeps_stepNumUpper (b : Builder) (a incl) : Res.AllW (Keeps b) (stepNumUpper b a incl) := by
   unfold stepNumUpper
   split
   · rename_i n lo hi hw
@@ -87,7 +87,7 @@ theorem keeps_stepNumUpper (b : Builder) (a incl) : Res.All (Keeps b) (stepNumUp
     all_goals exact keeps_upperCore b _ _ _ _ _ _ hw
   · simp
 
-theorem keeps_stepLenLower (b : Builder) (n : Int) : Res.All (Keeps b) (stepLenLower b n) := by
+theorem keeps_stepLenLower (b : Builder) (n : Int) : Res.AllW (Keeps b) (stepLenLower b n) := by
   unfold stepLenLower
   split
   · rename_i nl lo hi hw
@@ -96,7 +96,7 @@ theorem keeps_stepLenLower (b : Builder) (n : Int) : Res.All (Keeps b) (stepLenL
       | exact (Res.all_ok _).mpr (Keeps.refl b)
       | exact (Res.all_ok _).mpr ⟨rfl, rfl, by rw [hw]; rfl⟩
   · simp
-theorem keeps_stepLenUpper (b : Builder) (n : Int) : Res.All (Keeps b) (stepLenUpper b n) := by
+theorem keeps_stepLenUpper (b : Builder) (n : Int) : Res.AllW (Keeps b) (stepLenUpper b n) := by
   unfold stepLenUpper
   split
   · rename_i nl lo hi hw
@@ -105,7 +105,7 @@ theorem keeps_stepLenUpper (b : Builder) (n : Int) : Res.All (Keeps b) (stepLenU
       | exact (Res.all_ok _).mpr (Keeps.refl b)
       | exact (Res.all_ok _).mpr ⟨rfl, rfl, by rw [hw]; rfl⟩
   · simp
-theorem keeps_stepPrefix (b : Builder) (p : String) : Res.All (Keeps b) (stepPrefix b p) := by
+theorem keeps_stepPrefix (b : Builder) (p : String) : Res.AllW (Keeps b) (stepPrefix b p) := by
   unfold stepPrefix
   split
   · rename_i n q hw
@@ -115,12 +115,12 @@ theorem keeps_stepPrefix (b : Builder) (p : String) : Res.All (Keeps b) (stepPre
       | exact (Res.all_ok _).mpr ⟨rfl, rfl, by rw [hw]; rfl⟩
   · simp
 
-theorem keeps_bind {b : Builder} {x : Res Builder} {f : Builder → Res Builder} (hx : Res.All (Keeps b) x)
-    (hf : ∀ b', Res.All (Keeps b') (f b')) : Res.All (Keeps b) (x.bind f) := by
+theorem keeps_bind {b : Builder} {x : Res Builder} {f : Builder → Res Builder} (hx : Res.AllW (Keeps b) x)
+    (hf : ∀ b', Res.AllW (Keeps b') (f b')) : Res.AllW (Keeps b) (x.bind f) := by
   rw [Res.all_bind']
   refine Res.all_mono hx fun b' hb' => Res.all_mono (hf b') fun _ h => hb'.trans h
 
-theorem keeps_step1 (b : Builder) (c : RefineCall) : Res.All (Keeps b) (step1 b c) := by
+theorem keeps_step1 (b : Builder) (c : RefineCall) : Res.AllW (Keeps b) (step1 b c) := by
   cases c <;> simp only [step1]
   · exact keeps_stepNotNull b
   · exact keeps_stepNull b
@@ -133,7 +133,7 @@ theorem keeps_step1 (b : Builder) (c : RefineCall) : Res.All (Keeps b) (step1 b 
   · exact keeps_stepPrefix b _
   · exact keeps_stepPrefix b _
 
-theorem keeps_step (b : Builder) (c : RefineCall) : Res.All (Keeps b) (step b c) := by
+theorem keeps_step (b : Builder) (c : RefineCall) : Res.AllW (Keeps b) (step b c) := by
   unfold step
   split
   · exact (Res.all_ok _).mpr (Keeps.refl b)
@@ -141,7 +141,7 @@ theorem keeps_step (b : Builder) (c : RefineCall) : Res.All (Keeps b) (step b c)
     · simp
     · exact keeps_step1 b c
 
-theorem keeps_run : ∀ (cs : List RefineCall) (b : Builder), Res.All (Keeps b) (run b cs)
+theorem keeps_run : ∀ (cs : List RefineCall) (b : Builder), Res.AllW (Keeps b) (run b cs)
   | [], b => (Res.all_ok _).mpr (Keeps.refl b)
   | c :: cs, b => by
     simp only [run]
@@ -168,7 +168,7 @@ theorem kindOk_freshWip (u : Value) (hk : u.isKnown = false) : kindOk u.ty (fres
     split at hk <;> simp_all
   simp [this]
 
-theorem binv_init (v : Value) (hv : v.WF nfc = true) : Res.All (BInv nfc) (init v) := by
+theorem binv_init (v : Value) (hv : v.WF nfc = true) : Res.AllW (BInv nfc) (init v) := by
   have hu := wf_unmark hv
   have hum : v.unmark.isMarked = false := by
     simp only [WF, Bool.and_eq_true] at hv
@@ -198,7 +198,7 @@ theorem wf_replicate_unk (e : Ty) : ∀ (n : Nat), Payload.wfAll nfc e (List.rep
   | n + 1 => by simp [List.replicate, Payload.wfAll, Payload.kindOk_unref, wf_replicate_unk e n]
 
 theorem wf_collapse (ty : Ty) (r : Rfn) (hty : ty.ok nfc = true) (hk : kindOk ty r = true) :
-    Res.All (fun o => ∀ v, o = some v → v.WF nfc = true) (collapse ty r) := by
+    Res.AllW (fun o => ∀ v, o = some v → v.WF nfc = true) (collapse ty r) := by
   unfold collapse
   res_all
   all_goals first
@@ -206,7 +206,7 @@ theorem wf_collapse (ty : Ty) (r : Rfn) (hty : ty.ok nfc = true) (hk : kindOk ty
     | (simp_all [WF, Payload.wfP, Payload.wfAll, Ty.ok_list, Ty.ok_set, Ty.ok_map, Ty.strictAsc, idsAsc, noDup,
         Payload.containsMarkedL, Payload.containsMarked, Payload.kindOk_unref, wf_replicate_unk]; done)
 
-theorem wf_newValue (b : Builder) (hb : BInv nfc b) : Res.All (fun r => r.WF nfc = true) (newValue b) := by
+theorem wf_newValue (b : Builder) (hb : BInv nfc b) : Res.AllW (fun r => r.WF nfc = true) (newValue b) := by
   obtain ⟨hw, hm, hk⟩ := hb
   have hty := ok_of_wf hw
   unfold newValue
@@ -236,7 +236,7 @@ theorem wf_newValue (b : Builder) (hb : BInv nfc b) : Res.All (fun r => r.WF nfc
 
 /-- `v.Refine().<calls>.NewValue()`, whenever it returns, is well-formed -/
 theorem wf_refine (v : Value) (cs : List RefineCall) (hv : v.WF nfc = true) :
-    Res.All (fun r => r.WF nfc = true) (refine v cs) := by
+    Res.AllW (fun r => r.WF nfc = true) (refine v cs) := by
   unfold refine
   rw [Res.all_bind']
   refine Res.all_mono (binv_init v hv) fun b hb => ?_
